@@ -471,6 +471,17 @@ class Run:
         self.canaries_refuted = 0
         self.solver_s = 0.0
         self.backends = set()
+        self.scan_counts = {}
+
+    def scan(self, name, text):
+        """mechanical scan of a generated / hand-written contract file for assumption-introducing constructs"""
+        pats = {"kani::assume": r"kani::assume\(", "kani::stub": r"#\[kani::stub\(", "mem::forget": r"mem::forget\(",
+                "verus requires-hypotheses (lemma preconditions)": r"\brequires\b", "verus uninterp": r"\buninterp\b",
+                "verus external_body/assume_specification/admit/assume": r"external_body|assume_specification|\badmit\(|\bassume\("}
+        for k, p in pats.items():
+            n = len(re.findall(p, text))
+            if n:
+                self.scan_counts[k] = self.scan_counts.get(k, 0) + n
 
     # ---- Kani results ----------------------------------------------------------------
     def absorb_kani(self, results, specs, meta, crate):
@@ -552,6 +563,7 @@ class Run:
         """fn_specs: {fn_name: dict(obligation='Cxx:name', functions=[...], canary=bool, kind=..)}.
         Verdicts are per function, from Verus' JSON; stderr is kept as the verifier's reason."""
         self.backends.add("Verus 0.2026.09.13 / Z3")
+        self.scan(os.path.basename(path), src)
         self.checker_cmds.append(vr["cmd"].replace(os.path.dirname(path) + "/", ""))
         self.solver_s += vr.get("smt_s", 0.0)
         if vr.get("timeout"):
@@ -676,6 +688,10 @@ class Run:
                              covers=[sum(c.get("covers", [0, 0])[0] for c in self.contracts),
                                      sum(c.get("covers", [0, 0])[1] for c in self.contracts)]),
                 injection_points=self.injections,
+                assumption_scan=dict(self.scan_counts, note="occurrences in the contract files of this run; every kani::assume is a stated precondition "
+                                     "(input ranges / shapes), every stub is listed under assumptions, mem::forget only skips drop glue of results"),
+                contracts_list=[dict(name=c["name"], kind=c["kind"], engine=c["engine"], status=c["status"], checks=c["obligations"],
+                                     time_s=round(c.get("time_s") or 0, 1)) for c in self.contracts[:400]],
                 samples=self.samples[:40] or [c["name"] for c in self.contracts[:20]],
                 notes=self.notes,
                 exhaustive=False,
@@ -796,6 +812,8 @@ def run_batches(run, scratch, batches, log_prefix=None):
     for i, b in enumerate(batches):
         if b.pre_inject:
             run.injections += b.pre_inject(scratch) or []
+        for mname, mtext in list(b.modules.items()) + [(k, v) for inj in b.more_injections for k, v in inj["modules"].items()]:
+            run.scan(mname, mtext)
         if b.modules:
             run.injections += inject(scratch, b.crate, b.modules, host=b.host, moddir=b.moddir, modname=b.modname)
         for inj in b.more_injections:
